@@ -109,7 +109,8 @@ def sandwich_assembly(rng):
         a, sgn = along(ci)
         lst = phys if sgn > 0 else phys[::-1]
         asm.chops[(ci, a)] = [dict(count=lst[0])] if len(lst) == 1 else [dict(length_ratio=0.5, count=k) for k in lst]
-    asm.mode = "sandwich:%s:%s" % (name, variant)
+    asm.mode = "sandwich"
+    asm.sand = (name, variant)
     return asm
 
 
@@ -317,8 +318,8 @@ class C02(Prop):
             asm = done[k][0]
             runs = [d[2] for d in done[k:k + 3]]
             salts = [getattr(p, "salt", None) for (_a, p) in spec[k:k + 3]]
-            res.count("sandwich=%s" % asm.mode.split(":")[1])
-            res.count("sandwich_lists=%s:%s" % (asm.mode.split(":")[2], runs[0]["outcome"]))
+            res.count("sandwich=%s" % asm.sand[0])
+            res.count("sandwich_lists=%s:%s" % (asm.sand[1], runs[0]["outcome"]))
             why = None
             for j in (1, 2):
                 if runs[j]["outcome"] != runs[0]["outcome"]:
